@@ -916,3 +916,128 @@ impl Mp4TrackWriter {
         Ok(self.trak.clone())
     }
 }
+
+// ---- verification hooks (only with `--cfg mp4_verif`): forwarders to private items ----
+
+#[cfg(mp4_verif)]
+impl Mp4Track {
+    pub fn verif_sample_size(&self, sample_id: u32) -> Result<u32> {
+        self.sample_size(sample_id)
+    }
+
+    pub fn verif_sample_time(&self, sample_id: u32) -> Result<(u64, u32)> {
+        self.sample_time(sample_id)
+    }
+
+    pub fn verif_sample_rendering_offset(&self, sample_id: u32) -> i32 {
+        self.sample_rendering_offset(sample_id)
+    }
+
+    pub fn verif_is_sync_sample(&self, sample_id: u32) -> bool {
+        self.is_sync_sample(sample_id)
+    }
+
+    pub fn verif_read_sample<R: Read + Seek>(
+        &self,
+        reader: &mut R,
+        sample_id: u32,
+    ) -> Result<Option<Mp4Sample>> {
+        self.read_sample(reader, sample_id)
+    }
+}
+
+/// The private counters of `Mp4TrackWriter`, by value.
+#[cfg(mp4_verif)]
+#[derive(Debug, Clone, Copy, PartialEq, Eq, Default)]
+pub struct VerifTrackWriterState {
+    pub sample_id: u32,
+    pub fixed_sample_size: u32,
+    pub is_fixed_sample_size: bool,
+    pub chunk_samples: u32,
+    pub chunk_duration: u32,
+    pub samples_per_chunk: u32,
+    pub duration_per_chunk: u32,
+}
+
+/// Public newtype around the crate-private track writer.
+#[cfg(mp4_verif)]
+pub struct VerifTrackWriter(pub(crate) Mp4TrackWriter);
+
+#[cfg(mp4_verif)]
+impl VerifTrackWriter {
+    pub fn new(track_id: u32, config: &TrackConfig) -> Result<Self> {
+        Mp4TrackWriter::new(track_id, config).map(VerifTrackWriter)
+    }
+
+    /// Build a writer directly from its parts (arbitrary pre-state for one inductive step).
+    pub fn from_parts(trak: TrakBox, state: VerifTrackWriterState, chunk_buffer: &[u8]) -> Self {
+        VerifTrackWriter(Mp4TrackWriter {
+            trak,
+            sample_id: state.sample_id,
+            fixed_sample_size: state.fixed_sample_size,
+            is_fixed_sample_size: state.is_fixed_sample_size,
+            chunk_samples: state.chunk_samples,
+            chunk_duration: state.chunk_duration,
+            chunk_buffer: BytesMut::from(chunk_buffer),
+            samples_per_chunk: state.samples_per_chunk,
+            duration_per_chunk: state.duration_per_chunk,
+        })
+    }
+
+    pub fn write_sample<W: Write + Seek>(
+        &mut self,
+        writer: &mut W,
+        sample: &Mp4Sample,
+        movie_timescale: u32,
+    ) -> Result<u64> {
+        self.0.write_sample(writer, sample, movie_timescale)
+    }
+
+    pub fn write_chunk<W: Write + Seek>(&mut self, writer: &mut W) -> Result<()> {
+        self.0.write_chunk(writer)
+    }
+
+    pub fn write_end<W: Write + Seek>(&mut self, writer: &mut W) -> Result<TrakBox> {
+        self.0.write_end(writer)
+    }
+
+    pub fn state(&self) -> VerifTrackWriterState {
+        self.0.verif_state()
+    }
+
+    pub fn trak(&self) -> &TrakBox {
+        &self.0.trak
+    }
+
+    pub fn chunk_buffer(&self) -> &[u8] {
+        &self.0.chunk_buffer
+    }
+
+    /// Move the trak out without cloning it.
+    pub fn into_trak(self) -> TrakBox {
+        self.0.trak
+    }
+}
+
+#[cfg(mp4_verif)]
+impl Mp4TrackWriter {
+    pub(crate) fn verif_state(&self) -> VerifTrackWriterState {
+        VerifTrackWriterState {
+            sample_id: self.sample_id,
+            fixed_sample_size: self.fixed_sample_size,
+            is_fixed_sample_size: self.is_fixed_sample_size,
+            chunk_samples: self.chunk_samples,
+            chunk_duration: self.chunk_duration,
+            samples_per_chunk: self.samples_per_chunk,
+            duration_per_chunk: self.duration_per_chunk,
+        }
+    }
+
+    pub(crate) fn verif_trak(&self) -> &TrakBox {
+        &self.trak
+    }
+
+    pub(crate) fn verif_chunk_buffer(&self) -> &[u8] {
+        &self.chunk_buffer
+    }
+}
